@@ -683,11 +683,11 @@ Definition blots_Senum (r : grule) : option (list (list grule)) :=
   | PG_spreadable_expression => Some [[PG_spread_expression]; [PG_expression]]
   | _ => None
   end.
-Notation BQ := in_newline_quiet.
-Notation BS := (S_of grule blots_Senum).
-Notation btops := (tops grule blots_grammar BQ BS).
-Notation benum := (enum grule blots_grammar BQ blots_Senum).
-Notation bnames := (names grule blots_grammar BQ blots_Senum all_grules).
+Local Notation BQ := in_newline_quiet.
+Local Notation BS := (S_of grule blots_Senum).
+Local Notation btops := (tops grule blots_grammar BQ BS).
+Local Notation benum := (enum grule blots_grammar BQ blots_Senum).
+Local Notation bnames := (names grule blots_grammar BQ blots_Senum all_grules).
 
 Lemma all_grules_all : forall r : grule, In r all_grules.
 Proof. intro r. destruct r; vm_compute; tauto. Qed.
